@@ -33,8 +33,10 @@ type Solver struct {
 	Unknown   int
 	Errors    int
 	Restarts  int
+	FreshRetriesOK int
 	SolverSec float64
 	logw      io.Writer
+	noOneShot bool
 }
 
 var globalSolverSeconds int64 // microseconds, atomic
@@ -68,8 +70,6 @@ func (s *Solver) start() {
 		s.send(fmt.Sprintf("(set-option :tlimit-per %d)", s.softMS))
 	} else {
 		s.send(fmt.Sprintf("(set-option :timeout %d)", s.softMS))
-		s.send("(set-option :pp.decimal true)")
-		s.send("(set-option :pp.decimal_precision 20)")
 		s.send("(set-option :model.completion true)")
 	}
 }
@@ -188,8 +188,17 @@ func (s *Solver) Check(assertions []*Term, wantModel []*Term) (res string, model
 	s.SolverSec += dt.Seconds()
 	atomic.AddInt64(&globalSolverSeconds, dt.Microseconds())
 	if !ok {
-		s.Unknown++
 		s.restart()
+		if r, m := s.oneShot(assertions, wantModel); r != "unknown" {
+			if r == "sat" {
+				s.Sat++
+			} else {
+				s.Unsat++
+			}
+			s.FreshRetriesOK++
+			return r, m
+		}
+		s.Unknown++
 		return "unknown", nil
 	}
 	line = strings.TrimSpace(line)
@@ -203,6 +212,14 @@ func (s *Solver) Check(assertions []*Term, wantModel []*Term) (res string, model
 			}
 			s.send("(get-value (" + strings.Join(names, " ") + "))")
 			txt, ok := s.readSexpTimeout(20 * time.Second)
+			if ok && strings.Contains(txt, "root-obj") {
+				// algebraic numbers: ask again for decimal approximations
+				s.send("(set-option :pp.decimal true)")
+				s.send("(set-option :pp.decimal_precision 20)")
+				s.send("(get-value (" + strings.Join(names, " ") + "))")
+				txt, ok = s.readSexpTimeout(20 * time.Second)
+				s.send("(set-option :pp.decimal false)")
+			}
 			if ok {
 				model = parseModel(txt)
 			}
@@ -214,8 +231,17 @@ func (s *Solver) Check(assertions []*Term, wantModel []*Term) (res string, model
 		s.send("(pop 1)")
 		return "unsat", nil
 	case line == "unknown" || line == "timeout":
-		s.Unknown++
 		s.send("(pop 1)")
+		if r, m := s.oneShot(assertions, wantModel); r != "unknown" {
+			if r == "sat" {
+				s.Sat++
+			} else {
+				s.Unsat++
+			}
+			s.FreshRetriesOK++
+			return r, m
+		}
+		s.Unknown++
 		return "unknown", nil
 	default:
 		// (error ...) or anything else: inconclusive; restart for a clean state
@@ -385,6 +411,10 @@ func modelBV(v string) (uint64, bool) {
 }
 
 func modelReal(v string) (float64, bool) {
+	if r, ok := parseRat(v); ok {
+		f, _ := r.Float64()
+		return f, true
+	}
 	toks := tokenize(v)
 	pos := 0
 	var ev func() (float64, bool)
@@ -434,4 +464,112 @@ func modelReal(v string) (float64, bool) {
 		return 0, false
 	}
 	return ev()
+}
+
+// script renders a self-contained SMT-LIB script for the assertions.
+func (s *Solver) script(assertions []*Term, wantModel []*Term) string {
+	var sb strings.Builder
+	seen := map[int]bool{}
+	ufSeen := map[string]bool{}
+	var emit func(t *Term)
+	emit = func(root *Term) {
+		type fr struct {
+			t *Term
+			i int
+		}
+		stack := []fr{{root, 0}}
+		for len(stack) > 0 {
+			f := &stack[len(stack)-1]
+			if f.t.Op == OpConst || seen[f.t.ID] {
+				stack = stack[:len(stack)-1]
+				continue
+			}
+			if f.i < len(f.t.Args) {
+				a := f.t.Args[f.i]
+				f.i++
+				if a.Op != OpConst && !seen[a.ID] {
+					stack = append(stack, fr{a, 0})
+				}
+				continue
+			}
+			t := f.t
+			stack = stack[:len(stack)-1]
+			seen[t.ID] = true
+			if t.Op == OpVar {
+				fmt.Fprintf(&sb, "(declare-const %s %s)\n", t.ref(), t.Sort.SMT())
+				continue
+			}
+			if t.Op == OpUF && !ufSeen[t.Name] {
+				ufSeen[t.Name] = true
+				sb.WriteString(s.tt.ufs[t.Name] + "\n")
+			}
+			fmt.Fprintf(&sb, "(define-fun t%d () %s %s)\n", t.ID, t.Sort.SMT(), t.body())
+		}
+	}
+	all := append(append([]*Term(nil), s.tt.axioms...), assertions...)
+	for _, a := range all {
+		emit(a)
+	}
+	for _, v := range wantModel {
+		emit(v)
+	}
+	for _, a := range all {
+		sb.WriteString("(assert " + a.ref() + ")\n")
+	}
+	sb.WriteString("(check-sat)\n")
+	if len(wantModel) > 0 {
+		var names []string
+		for _, v := range wantModel {
+			names = append(names, v.ref())
+		}
+		sb.WriteString("(get-value (" + strings.Join(names, " ") + "))\n")
+	}
+	return sb.String()
+}
+
+// oneShot decides the query in a fresh, non-incremental solver process (z3's
+// nonlinear real core is much stronger outside push/pop).
+func (s *Solver) oneShot(assertions []*Term, wantModel []*Term) (string, Model) {
+	if strings.Contains(s.bin, "cvc5") || s.noOneShot {
+		return "unknown", nil
+	}
+	script := s.script(assertions, wantModel)
+	secs := s.softMS/1000*2 + 5
+	cmd := exec.Command(s.bin, "-in", fmt.Sprintf("-T:%d", secs))
+	cmd.Stdin = strings.NewReader(script)
+	t0 := time.Now()
+	done := make(chan struct{})
+	var out []byte
+	go func() {
+		out, _ = cmd.Output()
+		close(done)
+	}()
+	select {
+	case <-done:
+	case <-time.After(time.Duration(secs+10) * time.Second):
+		if cmd.Process != nil {
+			cmd.Process.Kill()
+		}
+		<-done
+	}
+	dt := time.Since(t0)
+	s.SolverSec += dt.Seconds()
+	s.Queries++
+	txt := string(out)
+	if strings.Contains(txt, "(error") {
+		lastSolverError = firstLineWith(txt, "(error")
+		return "unknown", nil
+	}
+	lines := strings.SplitN(strings.TrimSpace(txt), "\n", 2)
+	switch strings.TrimSpace(lines[0]) {
+	case "unsat":
+		return "unsat", nil
+	case "sat":
+		var m Model
+		if len(lines) > 1 {
+			m = parseModel(lines[1])
+		}
+		return "sat", m
+	}
+	return "unknown", nil
 }
